@@ -88,4 +88,26 @@ example : WFBatch mixed := ⟨by decide, by decide⟩
 example : (circuitBatch mixed).toOption = some (nativeBatch mixed) := by
   rw [P3R.C01.batch_scripts_equal_partial mixed ⟨by decide, by decide⟩]; rfl
 
+/-! The shape of the seeded regression C01-a (harness targets `batch/*/bus-mixed`): a sender and a
+receiver on a global bus next to a lookup-free AIR. -/
+def busMixed : Shape :=
+  { zk := false, D := 4, nrc := 0,
+    insts := [⟨1, 0, 0, true, true, 1, 1, 3⟩, ⟨1, 0, 0, true, true, 1, 1, 3⟩, ⟨3, 0, 0, true, true, 1, 0, 3⟩],
+    friRounds := 3, finalPolyLen := 1, queries := 2, commitPowBits := 1, queryPowBits := 1 }
+
+example : WFBatch busMixed := ⟨by decide, by decide⟩
+
+/-- On the mixed batch the circuit's script has the terminal-sum check over both present terminals
+(and none for the lookup-free instance). -/
+theorem bus_mixed_terminal_sum :
+    (circuitBatch busMixed).toOption.map (fun sc =>
+        decide (Check.terminalSum [Name.terminal 0, Name.terminal 1] ∈ sc.checks)) = some true := by
+  decide
+
+/-- non-vacuity of `unbalanced_bus_rejected`: a semantics in which exactly the terminal-sum check fails -/
+example : ∃ sc, circuitBatch busMixed = .ok sc ∧
+    ¬ accepts (V := Nat) ⟨fun _ _ _ => 0, fun _ _ _ _ => True,
+        fun c _ _ => match c with | .terminalSum _ => False | _ => True⟩ sc (fun _ => 0) :=
+  unbalanced_bus_rejected _ busMixed ⟨by decide, by decide⟩ _ (fun h => h)
+
 end P3R.Witness.C01
